@@ -291,8 +291,36 @@ theorem inv_cancel {s : MQ} (hi : Inv s) (id : Nat) : Inv (cancel s id) := by
     · rw [hpairs]; exact hi.pfifo
     · intro x hx pg hpg; rw [hpairs] at hpg; exact hi.noover x hx pg hpg
 
+theorem pairOf_refinish (m : Mess) : pairOf m.refinish = pairOf m := by
+  unfold Mess.refinish
+  split <;> rfl
+
+theorem pairs_refinish (s : MQ) (id : Nat) : pairs (refinish s id) = pairs s := by
+  unfold pairs refinish
+  simp only [← List.map_reverse, List.filterMap_map]
+  congr 1
+  funext m
+  simp only [Function.comp]
+  split
+  · exact pairOf_refinish m
+  · rfl
+
+theorem inv_refinish {s : MQ} (hi : Inv s) (id : Nat) : Inv (refinish s id) := by
+  have hpairs := pairs_refinish s id
+  constructor
+  · intro x hx; have := hi.qid x hx; show x.id < s.next + 1; omega
+  · exact hi.qstate
+  · exact hi.qput
+  · exact hi.qget
+  · exact hi.sorted
+  · exact hi.homog
+  · intro pg hpg; rw [hpairs] at hpg; have := hi.plt pg hpg; show pg.1 < s.next + 1 ∧ pg.2 < s.next + 1; omega
+  · rw [hpairs]; exact hi.pfifo
+  · intro x hx pg hpg; rw [hpairs] at hpg; exact hi.noover x hx pg hpg
+
 theorem inv_step {s : MQ} (hi : Inv s) (e : Ev) : Inv (step s e) := by
   cases e with
+  | refinish id => exact inv_refinish hi id
   | iput a pl det => exact inv_iput hi a pl det
   | iget a buf => exact inv_iget hi a buf
   | cancel id => exact inv_cancel hi id
@@ -477,8 +505,33 @@ theorem link_cancel {h : List Ev} {s : MQ} (_hi : Inv s) (hl : Link h s) (id : N
 theorem run_snoc (h : List Ev) (e : Ev) : run (h ++ [e]) = step (run h) e := by
   simp [run, List.foldl_append]
 
+theorem MOk.refinish {h : List Ev} {m : Mess} (hm : MOk h m) : MOk h m.refinish := by
+  unfold Mess.refinish
+  split
+  · rename_i hc
+    simp only [Bool.and_eq_true, decide_eq_true_eq] at hc
+    refine ⟨hm.put, hm.get, ?_⟩
+    have := hm.deliv
+    unfold DelivOk at *
+    simp only
+    exact ⟨Or.inr trivial, fun hd => ⟨(this.2 hd).1, (this.2 hd).2.1, (this.2 hd).2.2.1, fun _ => trivial⟩⟩
+  · exact hm
+
+theorem link_refinish {h : List Ev} {s : MQ} (hl : Link h s) (id : Nat) :
+    Link (h ++ [Ev.refinish id]) (refinish s id) := by
+  constructor
+  · simp [refinish, hl.len]
+  · intro x hx; exact ⟨(hl.q x hx).1.lift _, (hl.q x hx).2⟩
+  · intro x hx
+    simp only [refinish, List.mem_map] at hx
+    obtain ⟨m, hm, rfl⟩ := hx
+    split
+    · exact ((hl.f m hm).lift _).refinish
+    · exact (hl.f m hm).lift _
+
 theorem link_step {h : List Ev} {s : MQ} (hi : Inv s) (hl : Link h s) (e : Ev) : Link (h ++ [e]) (step s e) := by
   cases e with
+  | refinish id => exact link_refinish hl id
   | iput a pl det => exact link_iput hi hl a pl det
   | iget a buf => exact link_iget hi hl a buf
   | cancel id => exact link_cancel hi hl id
@@ -516,5 +569,82 @@ theorem pairs_complete {s : MQ} {m : Mess} (hm : m ∈ s.fin) (hd : m.state = .d
   unfold pairs
   simp only [List.mem_filterMap, List.mem_reverse]
   exact ⟨m, hm, by simp [pairOf, hd, hp, hg]⟩
+
+
+/-! ### how many times the getter's buffer is written -/
+
+def WOk (s : MQ) : Prop := (∀ m ∈ s.queue, m.writes = 0) ∧ (∀ m ∈ s.fin, m.writes ≤ 1)
+
+theorem finish_writes (m : Mess) : m.finish.writes ≤ m.writes + 1 := by
+  unfold Mess.finish
+  simp only []
+  split <;> simp
+
+theorem wok_step {s : MQ} (hw : WOk s) (e : Ev) (he : ∀ id, e ≠ Ev.refinish id) : WOk (step s e) := by
+  cases e with
+  | refinish id => exact absurd rfl (he id)
+  | cancel id =>
+    simp only [step, cancel]
+    split
+    · rename_i m hf
+      have hm : m ∈ s.queue := List.mem_of_find?_eq_some hf
+      refine ⟨fun x hx => hw.1 x (List.mem_of_mem_eraseP hx), ?_⟩
+      intro x hx
+      simp only [List.mem_cons] at hx
+      rcases hx with hx | hx
+      · subst hx; simp [hw.1 m hm]
+      · exact hw.2 x hx
+    · exact hw
+  | iput a pl det =>
+    simp only [step, iput]
+    split
+    · refine ⟨?_, hw.2⟩
+      intro x hx
+      simp only [List.mem_append, List.mem_singleton] at hx
+      rcases hx with hx | hx
+      · exact hw.1 x hx
+      · subst hx; rfl
+    · rename_i g rest hf
+      obtain ⟨pre, post, e1, e2, _, _⟩ := findMatching_some hf
+      have hg : g ∈ s.queue := by rw [e1]; simp
+      refine ⟨fun x hx => hw.1 x (by rw [e1]; rw [e2] at hx; simp at hx ⊢; rcases hx with h | h <;> simp [h]), ?_⟩
+      intro x hx
+      simp only [List.mem_cons] at hx
+      rcases hx with hx | hx
+      · subst hx
+        have := finish_writes { g with src := some a, payload := some pl, detached := g.detached || det, putEv := some s.next }
+        have h0 := hw.1 g hg
+        simp only at this
+        omega
+      · exact hw.2 x hx
+  | iget a buf =>
+    simp only [step, iget]
+    split
+    · refine ⟨?_, hw.2⟩
+      intro x hx
+      simp only [List.mem_append, List.mem_singleton] at hx
+      rcases hx with hx | hx
+      · exact hw.1 x hx
+      · subst hx; rfl
+    · rename_i p rest hf
+      obtain ⟨pre, post, e1, e2, _, _⟩ := findMatching_some hf
+      have hp : p ∈ s.queue := by rw [e1]; simp
+      refine ⟨fun x hx => hw.1 x (by rw [e1]; rw [e2] at hx; simp at hx ⊢; rcases hx with h | h <;> simp [h]), ?_⟩
+      intro x hx
+      simp only [List.mem_cons] at hx
+      rcases hx with hx | hx
+      · subst hx
+        have := finish_writes { p with dst := some a, hasBuf := buf, getEv := some s.next }
+        have h0 := hw.1 p hp
+        simp only at this
+        omega
+      · exact hw.2 x hx
+
+theorem wok_foldl (h : List Ev) (hh : ∀ e ∈ h, ∀ id, e ≠ Ev.refinish id) : ∀ s, WOk s → WOk (h.foldl step s) := by
+  induction h with
+  | nil => intro s hs; exact hs
+  | cons e es ih =>
+    intro s hs
+    exact ih (fun x hx => hh x (by simp [hx])) _ (wok_step hs e (hh e (by simp)))
 
 end SgVerif.C09
